@@ -32,7 +32,7 @@ def b01 (b : Bool) : String := if b then "1" else "0"
 def showFields (g : G) (ports : Ports) (unsup : Bool := false) : String :=
   let f := g.sh.flags
   let kid : Kid := { g := g, ports := ports }
-  s!"st={g.sh.status} name={b01 (g.sh.name == .self)} succ={b01 (g.sh.name == .succ)} pid={b01 !f.unregPid} pg={b01 !f.pgLeft} mon={b01 !f.pgDemon} kids={if f.terminated then 0 else 1} link={b01 !f.unlinked} sup={if unsup then 0 else if f.supNotified then 2 else 1} post={b01 f.postStop} sp={b01 kid.stopOpen} kp={b01 kid.signalOpen}"
+  s!"st={g.sh.status} name={b01 (g.sh.name == .self)} succ={b01 (g.sh.name == .succ)} pid={b01 !f.unregPid} pg={b01 !f.pgLeft} mon={b01 !f.pgDemon} kids={if f.terminated then 0 else 1} link={b01 !f.unlinked} sup={if unsup then 0 else 1 + g.sh.supEvents} post={b01 f.postStop} sp={b01 kid.stopOpen} kp={b01 kid.signalOpen}"
 
 def exiterAt (g : G) : String := g.exiter.pc.point
 
